@@ -81,6 +81,9 @@ class Box:
                            "PWD": decoy, "OLDPWD": decoy})
         if env:
             os.environ.update(env)
+        import tempfile
+        saved_tempdir = tempfile.tempdir
+        tempfile.tempdir = None          # (so that a TMPDIR given in env is honoured by this in-process run)
         saved_cwd = os.getcwd()
         os.chdir(self.path(cwd) if not os.path.isabs(cwd) else cwd)
         real_walk, real_scandir = os.walk, os.scandir
@@ -129,6 +132,7 @@ class Box:
             sys.stdout, sys.stderr = so, se
             os.walk, os.scandir = real_walk, real_scandir
             os.chdir(saved_cwd)
+            tempfile.tempdir = saved_tempdir
             os.environ.clear()
             os.environ.update(saved_env)
             import logging
